@@ -13,7 +13,7 @@ from props import c12 as C12       # Debug text -> generic tree words (the encod
 
 ID = "C13"
 DESIGN_REF = "DESIGN.md section 5, C13; design/C13.md"
-LEAN_TARGETS = ["PV.C13.Thm", "PV.C13.ParsedThm"]
+LEAN_TARGETS = ["PV.C13.Thm", "PV.C13.ParsedThm", "PV.C13.SpansThm", "PV.C13.SpansLexer"]
 DRIVER = "drv_c13"
 HARNESS = {"bin": "pvh_c13", "features": "default"}
 THEOREMS = [
@@ -58,6 +58,23 @@ THEOREMS = [
     "PV.C13.parsed_tree_srcOrdered_full_fails",
     "PV.C13.fstring_findings_reproduced",
     "PV.C13.bom_tokenless_module_all_ranges",
+    # OffsOk (output) derived from SpansOk (input: the lexer's token spans)
+    "PV.C13.toTree_allOff",
+    "PV.C13.rangesOk_of_tokens",
+    "PV.C13.parsed_offsets_token_ends",
+    "PV.C13.offsOk_of_spansOk",
+    "PV.C13.parsed_tree_srcOrdered'",
+    "PV.C13.parsed_tree_locations_eq_spec'",
+    "PV.C13.parsed_tree_linear_eq_random'",
+    "PV.C13.offsOk_of_spansOk_needs_side",
+    "PV.C13.offsOk_of_spansOk_needs_plain",
+    "PV.C13.spansOk_of_tiledP",
+    "PV.C13.lexed_spansOk",
+    # ... and for the tokens of the lexer model: BOM part proved, CR LF part the one remaining hypothesis (CrlfClear)
+    "PV.C13.lexed_initCursor_le",
+    "PV.C13.lexed_spansOk_of_crlfClear",
+    "PV.C13.lexed_parsed_tree_locations_eq_spec",
+    "PV.C13.lexed_parsed_tree_linear_eq_random",
 ]
 TRUSTED = [
     "Lean 4.33.0 kernel; axioms limited to propext, Classical.choice, Quot.sound",
@@ -83,6 +100,9 @@ TRUSTED = [
     "every run by the `*-pfold` streams: the model parser is run on the REAL tokens and spans, its tree must equal the real "
     "parser's tree up to leaf payloads (skel), and the fold model run on the model's tree must answer byte-for-byte what the real "
     "fold did on the real parse; the hypotheses and conclusions of the parser-level theorems are re-evaluated on every such input",
+    "for lexed_*: the lexer model PV.Lexer.lex (lean/PV/Lexer/*.lean; C05's trusted base, tied to lexer.rs by C05's own streams) "
+    "and C05's theorems tokens_in_bounds / tokens_on_boundaries / tokens_ordered_disjoint through PV.C02.tiledP_of_lexer; the "
+    "token VALUES of the lexer model and of the parser model are not related by a theorem (spans only), as in C02",
     "memchr2/memrchr2 modelled as first/last index of LF or CR; str::chars().count() on valid UTF-8 = number of "
     "non-continuation bytes; source length < 2^32",
     "tools/props/c13.py (generators, independent Python reference for row/column), tools/props/c12.py + "
@@ -91,16 +111,22 @@ TRUSTED = [
 ]
 PARTIAL = [
     "parser-produced trees are SrcOrdered BY THEOREM only at model level and only for trees without f-string pieces "
-    "(parsed_tree_srcOrdered: hypotheses TiledP = C05's lexer theorem, plainM, OffsOk). plainM excludes ALL f-strings (C02's "
-    "window facts do not cover replacement fields: their inner span table is not shown to tile the source), which is more than "
-    "the two listed f-string findings that live there (fstring_findings_reproduced); for trees with f-strings SrcOrdered is "
-    "still evaluated per tree (`*-fold` / `*-pfold` streams, evidence coverage.src_ordered_on_real_trees and "
+    "(parsed_tree_srcOrdered': hypotheses TiledP = C05's lexer theorem, SpansOk, plainM, NotBomTokenless). plainM excludes ALL "
+    "f-strings (C02's window facts do not cover replacement fields: their inner span table is not shown to tile the source), "
+    "which is more than the two listed f-string findings that live there (fstring_findings_reproduced; "
+    "offsOk_of_spansOk_needs_plain: with an f-string an offset need not be a token boundary); for trees with f-strings "
+    "SrcOrdered is still evaluated per tree (`*-fold` / `*-pfold` streams, evidence coverage.src_ordered_on_real_trees and "
     "coverage.ordM_on_model_parsed_trees)",
-    "OffsOk (every offset of the tree on a character boundary, not between a CR and its LF, not inside a leading BOM) is a "
-    "hypothesis on the OUTPUT offsets, decidable and evaluated on every stream input; its boundary part follows for parser "
-    "output from C02's parseRProgram_rangesOk_partial but is not re-derived on toTree; the CR LF / BOM parts are facts about "
-    "the lexer's token spans that no lexer theorem states (they fail exactly on the listed findings linear-offset-inside-crlf "
-    "and linear-bom-tokenless-module-all-ranges: bom_tokenless_module_all_ranges)",
+    "OffsOk (every offset of the OUTPUT tree on a character boundary, not between a CR and its LF, not inside a leading BOM) is "
+    "no longer a hypothesis: offsOk_of_spansOk derives it from SpansOk, the same three facts about the starts and ends of the "
+    "INPUT tokens (parsed_offsets_token_ends: every offset of a plain parser-built tree is a token start or end), except for "
+    "the one shape of the listed finding linear-bom-tokenless-module-all-ranges (NotBomTokenless; offsOk_of_spansOk_needs_side). "
+    "Of SpansOk, (a) character boundaries is part of TiledP (spansOk_of_tiledP) and (c) 'no token starts inside a leading BOM' "
+    "is proved of the lexer model (lexed_initCursor_le); (b) 'no token starts or ends between a CR and its LF' (CrlfClear) "
+    "REMAINS A HYPOTHESIS of lexed_parsed_tree_*: true of the lexer (a CR LF is one Newline / NonLogicalNewline token, or "
+    "interior to a string token or a gap) but not stated by any theorem about the lexer model; it is evaluated on the REAL "
+    "token spans of every `*-pfold` request (chk=ok requires the spans tiled and SpansOk; evidence "
+    "coverage.ordM_on_model_parsed_trees.spans_not_ok = 0)",
     "the parser-level theorems are about the MODEL parser PV.C02.parseRProgram on real token values; that the model computes "
     "the real parser's ranges is sampled by the `*-pfold` streams here and by C02's ranged-program-model streams, not proved",
     "the property's literal 'whatever order the tree's nodes appear in' is false for the LinearLocator "
@@ -139,7 +165,12 @@ LEVEL_TEXT = ("Machine-checked Lean 4 theorems. Locators (texts and call histori
               "tied to the Rust code on every run: recorded call sequences replayed through the locator model, and, on "
               "the tree the real parser produced, the fold model's call history and both located trees compared "
               "byte-for-byte with the real fold's; the real code is additionally judged on every node position by an "
-              "independent Python reference.")
+              "independent Python reference. Parser output (model level): for token spans that tile the source and start / "
+              "end at positions the locator accepts (SpansOk: a fact about the lexer's output, of which only 'not between a "
+              "CR and its LF' is not proved of the lexer model), every tree without f-string pieces that the program-parser "
+              "model builds is SrcOrdered, so both sentences of the property hold for it (parsed_tree_locations_eq_spec', "
+              "parsed_tree_linear_eq_random', lexed_parsed_tree_*): every offset of such a tree is a token start or end "
+              "(parsed_offsets_token_ends) and the fields of every node lie in fold order (parsed_ordM).")
 LEVEL_NOTE = ("Trusted: Lean kernel (axioms propext/Classical.choice/Quot.sound only); fidelity of the hand-written locator "
               "model and of the transcribed overrides as sampled by the correspondence; the C12 translator for the "
               "generated fold; the parser-level theorems speak about the model parser of C02 (tied per input by the pfold streams) and "
@@ -1126,7 +1157,8 @@ def _fold_requests(hbin, locate_reqs, outs, jobs, max_cost=None, flavour="d"):
 
 PARSED_STATS = {"model_parsed_trees": 0, "plain": 0, "ordM": 0, "plain_and_not_ordM": 0, "offs_ok_default": 0,
                 "src_ordered_default": 0, "ordM_offsok_not_src_ordered_default": 0, "offs_ok_all_ranges": 0,
-                "src_ordered_all_ranges": 0, "ordM_offsok_not_src_ordered_all_ranges": 0, "nonconforming": 0}
+                "src_ordered_all_ranges": 0, "ordM_offsok_not_src_ordered_all_ranges": 0, "nonconforming": 0,
+                "spans_tiled_and_spansOk": 0, "spans_not_ok": 0, "plain_spansOk_not_offsOk": 0}
 
 
 def _rtoks_bin():
@@ -1181,6 +1213,9 @@ def _pord_stats(pfold_reqs, jobs):
         PARSED_STATS["src_ordered_all_ranges"] += t("so1")
         PARSED_STATS["ordM_offsok_not_src_ordered_all_ranges"] += t("ordm") and t("ok1") and not t("so1")
         PARSED_STATS["nonconforming"] += (not t("conf0")) or (not t("conf1"))
+        PARSED_STATS["spans_tiled_and_spansOk"] += t("tiled") and t("sp")
+        PARSED_STATS["spans_not_ok"] += not (t("tiled") and t("sp"))
+        PARSED_STATS["plain_spansOk_not_offsOk"] += not t("spchk")
 
 
 def streams(ctx):
@@ -1234,7 +1269,8 @@ def streams(ctx):
                                   note="the program-parser MODEL (PV.C02.parseRProgram on the real tokens and spans): its tree must "
                                        "be the real tree (kinds, ranges, field positions), the fold model run on THE MODEL'S tree "
                                        "must answer what the real fold did, and the hypotheses / conclusions of the parser-level "
-                                       "theorems (plainM -> ordM, ordM and OffsOk -> SrcOrdered, Conforms) are evaluated (chk=ok)",
+                                       "theorems (plainM -> ordM, ordM and OffsOk -> SrcOrdered, Conforms, plainM and SpansOk -> OffsOk; the real "
+                                       "token spans are tiled and SpansOk) are evaluated (chk=ok)",
                                     nontrivial=lambda r: r.split()[3] != "-"))
 
     # 1. corpus: constructs whose tree order differs from source order, in every line-ending/BOM variant
